@@ -1007,9 +1007,9 @@ func TestC41(t *testing.T) {
 			"with half-to-even / truncation at the 18th digit (panic iff result needs >315 resp. >255 bits or divisor is zero); (uint, 1 in 13) Uint pair up to 2^256-1 incl. products and sums exactly at / one past the bound: Add/Sub/Mul/Quo/Mod/Incr/Decr/*Uint64 against math/big. "+
 			"non-trivial = coins: the sets share a denomination and at least one denomination is on one side only; int: an exact result within 1-2 bits of the 255-bit bound; "+
 			"dec: a Mul/Quo/RoundInt whose documented rounding differs from plain truncation (rounded away from zero, or an exact tie), or a result within 1-2 bits of its bound",
-		map[string]float64{"coins": 0.35, "int": 0.15, "dec": 0.15, "coins-interleaved": 0.15, "coins-sub-negative": 0.08, "coins-sub-non-negative": 0.08, "coins-zero-removed": 0.08,
-			"coins-overflow": 0.03, "coins-zero-entry-input": 0.05, "int-overflow": 0.05, "int-boundary-no-overflow": 0.03, "dec-tie": 0.02, "dec-overflow": 0.02,
-			"dec-rounded-away-from-zero": 0.03, "dec-rounded-toward-zero": 0.03},
+		map[string]float64{"coins": 0.35, "int": 0.1, "dec": 0.1, "uint": 0.02, "coins-interleaved": 0.15, "coins-sub-negative": 0.08, "coins-sub-non-negative": 0.08, "coins-zero-removed": 0.08,
+			"coins-overflow": 0.03, "coins-zero-entry-input": 0.05, "int-overflow": 0.05, "int-boundary-no-overflow": 0.03, "dec-tie": 0.012, "dec-overflow": 0.015,
+			"dec-rounded-away-from-zero": 0.02, "dec-rounded-toward-zero": 0.03},
 		func(rt *rapid.T, c *harness.Case) {
 			switch k := rapid.SampledFrom([]int{0, 0, 0, 1, 1, 1, 2, 2, 2, 3, 3, 3, 4}).Draw(rt, "kind"); k {
 			case 0, 1:
